@@ -307,11 +307,18 @@ def _malformed_cases(tier, rng):
         yield {"spec": {"inputs": [("1a", ax0)] + ins[1:], "outputs": outs}, "class": "non-identifier-name"}
         yield {"spec": {"inputs": ins, "outputs": [("y-z", oidx)]}, "class": "non-identifier-name"}
         yield {"spec": {"inputs": [("s.1c", ax0)] + ins[1:], "outputs": outs}, "class": "non-identifier-name"}
-        # (5) non-identifier index names: whitespace between identifier characters ('j j'), a leading digit
+        # (5) non-identifier index names: whitespace between identifier characters ('j j'), a leading digit, no name at all
         if oidx:
-            for badidx in (oidx[-1] + " " + oidx[-1], "k _2", "2" + oidx[-1]):
+            # (an empty name only next to another index: 'y[]' is a rank-0 array, which the notation does not have)
+            for badidx in (oidx[-1] + " " + oidx[-1], "k _2", "2" + oidx[-1]) + (("",) if len(oidx) >= 2 else ()):
                 yield {"spec": {"inputs": ins, "outputs": [(o, ax[:-1] + (badidx,)) for o, ax in outs]},
                        "class": "non-identifier-index"}
+            # ... also right after a well-formed sibling that differs only in blanks was parsed (and again afterwards:
+            # what one string means does not depend on which strings were parsed before)
+            good = oidx[-1] + oidx[-1]
+            sib = {"inputs": ins, "outputs": [(o, ax[:-1] + (good,)) for o, ax in outs]}
+            yield {"spec": {"inputs": ins, "outputs": [(o, ax[:-1] + (oidx[-1] + " " + oidx[-1],)) for o, ax in outs]},
+                   "class": "non-identifier-index", "sibling": sib}
 
 
 def _check_malformed(case):
@@ -320,6 +327,12 @@ def _check_malformed(case):
     if ref.malformed_reason(spec) is None:
         return []  # the mutation happened to stay well-formed (e.g. output rank 1): nothing to demand
     bad = []
+    sib = case.get("sibling")
+    if sib is not None and ref.malformed_reason(sib) is None:
+        try:
+            first = MapSpec.from_string(ref.canonical_str(sib))
+        except Exception as e:  # noqa: BLE001
+            return [f"well-formed sibling {ref.canonical_str(sib)!r} refused: {type(e).__name__}"]
     try:
         _mk(spec)
         bad.append(f"constructor accepts malformed spec ({case['class']})")
@@ -335,6 +348,14 @@ def _check_malformed(case):
             bad.append(f"from_string accepts malformed spec ({case['class']}): {ref.canonical_str(spec)!r}")
         except ValueError:
             pass
+    if sib is not None and ref.malformed_reason(sib) is None:
+        try:
+            again = MapSpec.from_string(ref.canonical_str(sib))
+            if again != first or str(again) != str(first):
+                bad.append(f"{ref.canonical_str(sib)!r} parses differently after {ref.canonical_str(spec)!r} was tried")
+        except Exception as e:  # noqa: BLE001
+            bad.append(f"well-formed {ref.canonical_str(sib)!r} is refused ({type(e).__name__}) after the malformed "
+                       f"{ref.canonical_str(spec)!r} was tried")
     return bad
 
 
